@@ -12,6 +12,7 @@ import UberjobModel.Model.SmallDrv
 import UberjobModel.Model.CacheDrv
 import UberjobModel.Model.Notify
 import UberjobModel.Model.Queues
+import UberjobModel.Model.PQueue
 import UberjobModel.Model.ProgressDrv
 import UberjobModel.Model.PhysDrv
 import UberjobModel.Model.ExecDrv
@@ -222,6 +223,7 @@ def step (c : Ctx) (line : String) : Ctx × String :=
   | "execp" :: _ => (c, Uberjob.Exec.drv line)
   | "notifs" :: _ => (c, Notify.drv line)
   | "rq" :: _ => (c, Queues.drv line)
+  | "pq" :: _ => (c, Uberjob.PQueue.drv line)
   | "cplan" :: _ => let (d, r) := Cache.drv c.cache line; ({ c with cache := d }, r)
   | "cop" :: _ => let (d, r) := Cache.drv c.cache line; ({ c with cache := d }, r)
   | "cstale" :: _ => (c, (Cache.drv c.cache line).2)
